@@ -26,10 +26,16 @@ def one(job):
     variant = rng.choice([{}, {}, {"be": True}, {"tsresol": 9}, {"tsresol": 6, "tsoffset": 1_000_000_000},
                           {"tsresol": 0x80 | 20, "be": True}, {"tsoffset": 1_700_000_000, "extra_blocks": True}])
     if variant.get("tsresol", 6) & 0x80:
-        # binary resolutions cannot represent every µs instant: snap the instants to representable ones first
-        k = variant["tsresol"] & 0x7F
-        mx.items = [("pkt", (us * (1 << k) // 1_000_000) * 1_000_000 // (1 << k) + 1, f) for _, us, f in mx.items]
-        variant = {}
+        # a binary resolution (ticks of 2^-20 s): the instants are moved to multiples of 2^-6 s = 15625 µs, which both the capture's
+        # tick grid and the export's microsecond grid represent exactly (no rounding question, that is C12's); order and ties are kept
+        old_ts = [it[1] for it in mx.items]
+        base = (old_ts[0] // 15625) * 15625
+        remap = {}
+        for i, t in enumerate(old_ts):
+            remap[t] = base + i * 15625
+        mx.items = [("pkt", remap[us], f) for _, us, f in mx.items]
+        for q in mx.quic:
+            q["expect"] = [(remap.get(t, t), d, b) for t, d, b in q["expect"]]
     cap = mx.capture(**variant)
     r = tool.run(cap, kl, list(args))
     blob = {"capture_hex": cap.hex(), "keylog": kl, "job": [seed, ntls, nquic, list(args)], "container": variant}
